@@ -249,7 +249,7 @@ pub fn case(ctx: &mut Ctx, tag: &str, small: &str, cache: &str, schedule: &str, 
         let all: Vec<u8> = specs.iter().flat_map(|s| s.0.clone()).collect();
         // read concurrently with writing: a reset caused by writing to a closed connection may discard
         // received data that has not been read yet
-        let reader = if sched != "pingpong" && sched != "hold" && sched != "linger" && sched != "wait100" {
+        let reader = if sched != "pingpong" && sched != "hold" && sched != "linger" && sched != "wait100" && !sched.starts_with("rst") {
             let mut rc = client.try_clone().unwrap();
             Some(std::thread::spawn(move || read_all(&mut rc)))
         } else {
@@ -373,6 +373,16 @@ pub fn case(ctx: &mut Ctx, tag: &str, small: &str, cache: &str, schedule: &str, 
                 let _ = client.write_all(&all[..n]);
                 std::thread::sleep(Duration::from_millis(120));
                 let _ = client.write_all(&all[n..]);
+            }
+            s if s.starts_with("rst") => {
+                // send the first N bytes, leave the server's interim response unread and close: the kernel answers the
+                // server's next read with a reset (an error, not end-of-stream)
+                let n: usize = s[3..].parse::<usize>().unwrap().min(all.len());
+                let _ = client.write_all(&all[..n]);
+                std::thread::sleep(Duration::from_millis(80));
+                peak = peak.max(count_files(&srv.cache));
+                let old = std::mem::replace(&mut client, TcpStream::connect(srv.addr).unwrap());
+                drop(old);
             }
             s if s.starts_with("cut") => {
                 // send only the first N bytes, then disconnect abruptly (after a short pause so the server starts the upload)
@@ -588,6 +598,12 @@ pub fn run_c10(ctx: &mut Ctx) {
                     let second = *rng.pick(&["", "-n200", "-p"]);
                     let req = format!("POST:/r0:{framing}:{body}:g1000000{second};GET:/r1:n::n200");
                     case(ctx, "c10", "100", "1", &format!("cut{cut}"), &req);
+                }
+                // … the same offsets, but the client goes away with a reset (socket error on the server's read) instead of a FIN
+                idx += 1;
+                if ctx.mine(idx) && framing == "e" && (ctx.thorough() || off == 1 || off == 4096 || off == len - 1) {
+                    let req = format!("POST:/r0:{framing}:{body}:g1000000;GET:/r1:n::n200");
+                    case(ctx, "c10", "100", "1", &format!("rst{cut}"), &req);
                 }
                 // … and the same abandonment while all handler threads are busy with other connections
                 idx += 1;
